@@ -149,6 +149,7 @@ func (p *Program) verifyFuncWith(key string, forceSafety bool, extraTags []strin
 	if ct == nil {
 		return
 	}
+	f.atExit = true
 	env := f.envAt(final, nil)
 	env.old = f.entry
 	sig := fn.Signature
